@@ -2,6 +2,7 @@
 //! One binary per property under src/bin/cNN.rs; shared generators/oracles live here.
 #![allow(clippy::too_many_arguments, clippy::type_complexity)]
 
+pub mod histories;
 pub mod micro;
 pub mod pragen;
 pub mod refvalidate;
